@@ -471,6 +471,12 @@ func main() {
 		"hash fields are compared case-insensitively; 'LM:' (LM hash with empty NT) may be refused with an error or accepted",
 	)
 	r.Extra("exhaustive_subdomains", []string{"IPv4 prefix lengths 0..32", "every port value 0..65535 as range start and as range end"})
+	// race side run (./check builds this monitor with -race): only the workloads in which goroutines
+	// use the library at the same time; the detector's reports are filed by Finish
+	if mon.SideRace() {
+		concurrentParsers()
+		r.Finish()
+	}
 	ipv4Workload()
 	ipv6Workload()
 	portWorkload()
